@@ -23,6 +23,19 @@ Theorem C10_aggr_equiv :
 Proof. exact @aggr_equiv. Qed.
 Print Assumptions C10_aggr_equiv.
 
+(* request level: an aggregated collective put == every rank's data written at the row-major offsets of its request *)
+Theorem C10_aggr_put_equiv :
+  forall (reqs : list Aggregate.put_req) (groups : list (list Aggregate.put_req))
+           (singles : list Aggregate.put_req) (d : Disk.disk),
+         Forall req_fits reqs ->
+         Permutation.Permutation (concat groups ++ singles) reqs ->
+         pdisj (all_tiles (map Aggregate.contrib_of_req reqs)) ->
+         disk_eq
+           (Aggregate.aggr_writes d (map (map Aggregate.contrib_of_req) groups)
+              (map Aggregate.contrib_of_req singles)) (fold_left spec_put reqs d).
+Proof. exact @aggr_put_equiv. Qed.
+Print Assumptions C10_aggr_put_equiv.
+
 (* one aggregator, ANY sorted permutation returned by the (unstable) qsort *)
 Theorem C10_aggr_after_sort_equiv :
   forall (recv_buf : list Base.byte) (pairs : list (Z * Z)) (S : list Aggregate.triple)
